@@ -34,6 +34,7 @@ const (
 	EvRestart
 	EvCompact
 	EvTransfer
+	EvUnreachable // the transport reports that it could not send to a replica (rafthttp does on a failed send)
 )
 
 // crash modes carried in the C field of a node event
@@ -45,7 +46,7 @@ const (
 )
 
 var kindNames = map[int]string{EvTick: "tick", EvTimeout: "timeout", EvDeliver: "deliver", EvDeliverDup: "deliver-dup",
-	EvDrop: "drop", EvPropose: "propose", EvConf: "conf", EvCrash: "crash", EvRestart: "restart", EvCompact: "compact", EvTransfer: "transfer"}
+	EvDrop: "drop", EvPropose: "propose", EvConf: "conf", EvCrash: "crash", EvRestart: "restart", EvCompact: "compact", EvTransfer: "transfer", EvUnreachable: "unreachable"}
 
 func Ev(kind, a, b, c int) uint32 { return uint32(kind)<<24 | uint32(a)<<12 | uint32(b)<<4 | uint32(c) }
 func unEv(e uint32) (kind, a, b, c int) {
@@ -68,13 +69,14 @@ type Config struct {
 	Storage     string // "mem" | "rocks"
 	ET          []int  // election tick per replica (default 2)
 	MaxSizeOne  bool   // MaxSizePerMsg = MaxCommittedSizePerReady = 0 → one entry per message / Ready page
+	MixedSizes  bool   // MaxSizePerMsg = MaxCommittedSizePerReady = 100 bytes and proposals of 1 / 200 / 1 / 200 ... bytes
 
 	// budgets
-	MaxDup, MaxDrop, MaxCrash, MaxProp, MaxConf, MaxCompact, MaxTransfer, MaxTick int
-	CrashModes                                                                    []int // additional in-step crash modes enabled
-	UseTimeout                                                                    bool
-	UseTick                                                                       bool
-	MaxTerm                                                                       uint64 // ticks/timeouts are disabled for a non-leader replica whose term reached this (0 = 4)
+	MaxDup, MaxDrop, MaxCrash, MaxProp, MaxConf, MaxCompact, MaxTransfer, MaxTick, MaxUnreach int
+	CrashModes                                                                                []int // additional in-step crash modes enabled
+	UseTimeout                                                                                bool
+	UseTick                                                                                   bool
+	MaxTerm                                                                                   uint64 // ticks/timeouts are disabled for a non-leader replica whose term reached this (0 = 4)
 }
 
 type rnode struct {
@@ -108,7 +110,7 @@ type Cluster struct {
 	cfg     *Config
 	nodes   []*rnode
 	net     []netMsg
-	used    struct{ dup, drop, crash, prop, conf, compact, transfer, tick int }
+	used    struct{ dup, drop, crash, prop, conf, compact, transfer, tick, unreach int }
 	propSeq int
 
 	// oracle history variables
@@ -139,6 +141,11 @@ func (c *Cluster) raftConfig(id uint64, st raft.Storage) *raft.Config {
 	rc := &raft.Config{ID: id, ElectionTick: et, HeartbeatTick: 1, Storage: st, MaxInflightMsgs: 4,
 		MaxSizePerMsg: 1 << 20, MaxCommittedSizePerReady: 1 << 20,
 		CheckQuorum: c.cfg.CheckQuorum, PreVote: c.cfg.PreVote, Logger: discard, Group: groupOf(id)}
+	if c.cfg.MixedSizes {
+		// a size limit that a big entry exceeds and a small one does not: pages are cut inside the log
+		rc.MaxSizePerMsg = 100
+		rc.MaxCommittedSizePerReady = 100
+	}
 	if c.cfg.MaxSizeOne {
 		rc.MaxSizePerMsg = 0
 		rc.MaxCommittedSizePerReady = 1 // validate() turns 0 into MaxSizePerMsg; 1 byte = one entry per page
@@ -610,7 +617,11 @@ func (c *Cluster) Apply(ev uint32) {
 		nd := c.nodes[a-1]
 		c.used.prop++
 		c.propSeq++
-		nd.n.Propose(ctx, []byte(fmt.Sprintf("p%d", c.propSeq)))
+		payload := fmt.Sprintf("p%d", c.propSeq)
+		if c.cfg.MixedSizes && c.propSeq%2 == 0 {
+			payload += strings.Repeat("x", 200)
+		}
+		nd.n.Propose(ctx, []byte(payload))
 		c.crashBudget(cm)
 		c.pump(nd, cm)
 	case EvConf:
@@ -645,6 +656,11 @@ func (c *Cluster) Apply(ev uint32) {
 			panic(fmt.Sprintf("Compact(%d): %v", nd.applied, err))
 		}
 		c.shadowCheck(nd)
+	case EvUnreachable:
+		nd := c.nodes[a-1]
+		c.used.unreach++
+		nd.n.ReportUnreachable(uint64(b), groupOf(uint64(b)))
+		c.pump(nd, CrashNone)
 	case EvTransfer:
 		nd := c.nodes[a-1]
 		c.used.transfer++
@@ -795,6 +811,13 @@ func (c *Cluster) Enabled() []uint32 {
 				}
 			}
 		}
+		if c.used.unreach < cf.MaxUnreach && v.State == raft.StateLeader {
+			for _, t := range v.Voters {
+				if t != nd.id {
+					evs = append(evs, Ev(EvUnreachable, int(nd.id), int(t), 0))
+				}
+			}
+		}
 	}
 	return evs
 }
@@ -879,7 +902,7 @@ func (c *Cluster) Key() explore.Key {
 	}
 	e.Tag("budget")
 	u := c.used
-	for _, x := range []int{u.dup, u.drop, u.crash, u.prop, u.conf, u.compact, u.transfer, c.propSeq} {
+	for _, x := range []int{u.dup, u.drop, u.crash, u.prop, u.conf, u.compact, u.transfer, u.unreach, c.propSeq} {
 		e.U64(uint64(x))
 	}
 	if c.cfg.MaxTick > 0 {
@@ -926,7 +949,7 @@ func (c *Cluster) Describe(ev uint32) string {
 		}
 	case EvConf:
 		s += fmt.Sprintf(" at %d %s target %d", a, []string{"add-voter", "add-learner", "remove", "?"}[b&3], b>>2)
-	case EvTransfer:
+	case EvTransfer, EvUnreachable:
 		s += fmt.Sprintf(" %d->%d", a, b)
 	default:
 		s += fmt.Sprintf(" %d", a)
